@@ -36,6 +36,8 @@ theorem allowed_ok {K : Kind} {ops : List Op} (h : Allowed K ops) : ∀ op ∈ o
   | shards _ => trivial
   | sync _ _ _ _ => trivial
   | event => trivial
+  | acquire _ => trivial
+  | release _ => trivial
   | tick _ _ => trivial
   | hb _ _ _ => trivial
   | reconcileCount => trivial
@@ -51,7 +53,7 @@ theorem allowed_ok {K : Kind} {ops : List Op} (h : Allowed K ops) : ∀ op ∈ o
 theorem c09_judge (K : Kind) (cfg : Cfg) (ops : List Op) (h : Allowed K ops) :
     (run cfg ops).2 = none ∧ (run cfg ops).1.length = ops.length ∧
       allGood (judgeAll cfg ops (run cfg ops).1) = true :=
-  run_inv ops {} {} (inv_init K cfg) (allowed_ok h)
+  run_inv ops (initState cfg) {} (inv_init K cfg) (allowed_ok h)
 
 /-! ## 2. capacity: never above the configured global limit -/
 
@@ -60,7 +62,7 @@ theorem c09_judge (K : Kind) (cfg : Cfg) (ops : List Op) (h : Allowed K ops) :
 theorem c09_cap (K : Kind) (cfg : Cfg) (G : Bound) (ops : List Op) (h : Allowed K ops)
     (hG : ∀ s, Op.schema s ∈ ops → BLe (globalOf s) G) (h0 : BLe {} G) :
     ∀ o ∈ (run cfg ops).1, ∀ l, o.rlim = some l → Lim.leb l G = true ∧ l.kind = K := by
-  apply run_cap ops {} {} (inv_init K cfg) ⟨h0, h0, fun s hs => by cases hs⟩
+  apply run_cap ops (initState cfg) {} (inv_init K cfg) ⟨h0, h0, fun s hs => by cases hs⟩
   intro op hop
   exact ⟨allowed_ok h op hop, fun s hs => hG s (hs ▸ hop)⟩
 
@@ -194,10 +196,11 @@ theorem c09_local_limit (K : Kind) (cfg : Cfg) (ops : List Op) (h : Allowed K op
     simp only at hv
     have hb := VS_globalOK (VS_of_valid hv.1)
     exact ⟨hb.mi1, hb.q1, hb.b1⟩
-  obtain ⟨st', m', e1, e2, _⟩ := exec_inv (G := ⟨maxInt32, maxInt32, maxInt32⟩) ops {} {} (inv_init K cfg)
+  obtain ⟨st', m', e1, e2, _⟩ := exec_inv (G := ⟨maxInt32, maxInt32, maxInt32⟩) ops (initState {}) {} (inv_init K {})
     ⟨⟨by decide, by decide, by decide⟩, ⟨by decide, by decide, by decide⟩, fun s hs => by cases hs⟩ hG
-  rw [hst] at e1
-  have : st = st' := Option.some.inj e1
+  have e1' : exec {} ops = some st' := e1
+  rw [hst] at e1'
+  have : st = st' := Option.some.inj e1'
   subst this
   obtain ⟨a, b⟩ := inv_local e2 hc
   exact ⟨(valid_of_VS a).1, b⟩
@@ -423,10 +426,10 @@ def IsCount : GFC → Prop
 /-- **the instance keeps asking**: more than 2 s (unix seconds) after the counter's last sync a max-in-flight counter
     always sends a request, and a token-bucket counter does unless an event is pending — degraded or not, idle or
     not, reserve full or not (the zero-token resync) -/
-theorem c09_request_when_due (g : GFC) (hg : IsCount g) (cnt : Counter) (mt : Meter) (now : Int)
+theorem c09_request_when_due (g : GFC) (hg : IsCount g) (cnt : Counter) (mt : Meter) (infl now : Int)
     (hdue : unixS now - cnt.lastSync > 2) (hev : (∃ w, g = .miw w) ∨ cnt.event = false) :
-    ∃ hits, requestOf g cnt mt now = some hits := by
-  cases hreq : requestOf g cnt mt now with
+    ∃ hits, requestOf g cnt mt infl now = some hits := by
+  cases hreq : requestOf g cnt mt infl now with
   | some hits => exact ⟨hits, rfl⟩
   | none =>
     rcases requestOf_due (Int.le_refl _) hdue hreq with ⟨l, rfl⟩ | ⟨⟨w, rfl⟩, he⟩
@@ -477,10 +480,10 @@ theorem tick_accept (st : State) (c : Cache) (rm : Remote) (g : GFC) (hc : st.ca
     (ha : a.accept = true) (he : a.err = .none) :
     ∃ st' c' rm' g', step st (.tick now (some a)) = .ok st' ∧ st'.cache = some c' ∧ c'.remote = some rm' ∧
       rm'.fc = some g' ∧ IsCount g' ∧ st'.meter = st.meter ∧
-      ((requestOf g c.cnt st.meter now = none ∧ g' = g ∧ c'.cnt = { c.cnt with event := false }) ∨
-       ((∃ hits, requestOf g c.cnt st.meter now = some hits) ∧
+      ((requestOf g c.cnt st.meter st.inflight now = none ∧ g' = g ∧ c'.cnt = { c.cnt with event := false }) ∨
+       ((∃ hits, requestOf g c.cnt st.meter st.inflight now = some hits) ∧
         (g'.unavail = false ∨ (g'.unavail = g.unavail ∧ ∃ w, g = .miw w ∧ now > 0 ∧ now ≤ w.lastAcquireTime)))) := by
-  cases hreq : requestOf g c.cnt st.meter now with
+  cases hreq : requestOf g c.cnt st.meter st.inflight now with
   | none =>
     exact ⟨tickQuiet st c now, _, rm, g, by simp [step, hc, hr, hf, hreq], rfl, hr, hf, hg, rfl,
       Or.inl ⟨rfl, rfl, rfl⟩⟩
@@ -513,7 +516,7 @@ theorem c09_recovery_liveness (st : State) (c : Cache) (rm : Remote) (g : GFC) (
       cases g with
       | empty l => exact hg.elim
       | miw w =>
-        obtain ⟨hits, hh⟩ := c09_request_when_due (.miw w) hg c.cnt st.meter t1 hd1 (Or.inl ⟨w, rfl⟩)
+        obtain ⟨hits, hh⟩ := c09_request_when_due (.miw w) hg c.cnt st.meter st.inflight t1 hd1 (Or.inl ⟨w, rfl⟩)
         rw [hn] at hh; cases hh
       | tbw w => exact ⟨w, rfl⟩
     · exact Or.inl hav
@@ -529,11 +532,129 @@ theorem c09_recovery_liveness (st : State) (c : Cache) (rm : Remote) (g : GFC) (
   · -- the second round is due, no event pending: the zero-token resync is sent and answered
     subst hgg hw
     have hdue2 : unixS t2 - c1.cnt.lastSync > 2 := by rw [hcnt]; exact hd2
-    obtain ⟨hits, hh⟩ := c09_request_when_due (.tbw w) trivial c1.cnt s1.meter t2 hdue2 (Or.inr (by rw [hcnt]))
+    obtain ⟨hits, hh⟩ := c09_request_when_due (.tbw w) trivial c1.cnt s1.meter s1.inflight t2 hdue2 (Or.inr (by rw [hcnt]))
     rcases f7 with ⟨hn, _, _⟩ | ⟨_, h | ⟨_, w', hw', _⟩⟩
     · rw [hn] at hh; cases hh
     · exact h
     · cases hw'
+
+/-! ## 7. requests in flight across limit changes; tokens are asked for when there is demand -/
+
+/-- **which syncs rebuild the limiter.** A `remoteWrapper.Sync` whose item has the type and the strategy of the limiter
+    inside the wrapper NEVER builds a new limiter, whatever the values (limits, global limits) are: a changed limit is
+    applied by resizing in place. (The other direction is `c09_rebuild_cases`.) -/
+theorem c09_limit_change_resizes_in_place (r : Remote) (g : GFC) (s : Schema) (i : Item) (hf : r.fc = some g)
+    (hk : g.inner.kind = itemType i) (hs : r.strategy = i.strategy)
+    (hv : (i.mi.isSome ∧ g.inner.kind = .mi) ∨ (i.tb.isSome ∧ g.inner.kind = .tb)) :
+    remoteRecreates r s i = false := by
+  unfold remoteRecreates
+  simp only [hf]
+  split
+  · rfl
+  · have h1 : ¬ (g.inner.kind ≠ itemType i ∨ r.strategy ≠ i.strategy) := by
+      intro h; rcases h with h | h
+      · exact h hk
+      · exact h hs
+    rw [if_neg h1]
+    rcases hv with h | h
+    · rw [if_pos h]
+    · by_cases h2 : i.mi.isSome = true ∧ g.inner.kind = .mi
+      · rw [if_pos h2]
+      · rw [if_neg h2, if_pos h]
+
+/-- a new limiter is built only when there is none yet, or the type or the strategy changes (or the item carries no
+    value of its own type) -/
+theorem c09_rebuild_cases (r : Remote) (s : Schema) (i : Item) (h : remoteRecreates r s i = true) :
+    r.fc = none ∨ ∃ g, r.fc = some g ∧ (g.inner.kind ≠ itemType i ∨ r.strategy ≠ i.strategy ∨
+      ¬ ((i.mi.isSome ∧ g.inner.kind = .mi) ∨ (i.tb.isSome ∧ g.inner.kind = .tb))) := by
+  cases hf : r.fc with
+  | none => exact Or.inl rfl
+  | some g =>
+    refine Or.inr ⟨g, rfl, ?_⟩
+    by_cases hk : g.inner.kind = itemType i
+    · by_cases hs : r.strategy = i.strategy
+      · refine Or.inr (Or.inr ?_)
+        intro hv
+        rw [c09_limit_change_resizes_in_place r g s i hf hk hs hv] at h
+        cases h
+      · exact Or.inr (Or.inl hs)
+    · exact Or.inl hk
+
+/-- **resize in place keeps the count, rebuild loses it**: a sync that does not rebuild leaves the limiter object
+    (`remInner`), its bucket's count (`remCount`) and the wrapper (`remOuter`) alone and the limiter afterwards is the
+    old one, resized at most; a sync that rebuilds installs a NEW object (`remInner + 1`) with an EMPTY bucket -/
+theorem c09_sync_flight (c c' : Cache) (i : Item) (nowS : Int) (r : Remote) (hr : c.remote = some r)
+    (hg : ∃ g, r.fc = some g) (h : cacheRemoteSync c i nowS = .ok c') :
+    (remoteRecreates r c.loc.config i = false → c'.fl = c.fl ∧ ∃ g, r.fc = some g ∧
+        (c'.remote.bind (·.fc) = some g ∨ ∃ n b, c'.remote.bind (·.fc) = some (g.resize n b))) ∧
+    (remoteRecreates r c.loc.config i = true →
+        c'.fl = { c.fl with remInner := c.fl.remInner + 1, remCount := 0 }) := by
+  unfold cacheRemoteSync at h
+  simp only [hr, Option.getD_some, Option.isNone_some] at h
+  cases hs : remoteSync r c.loc.config i with
+  | error e => simp [hs, bind, Except.bind] at h
+  | ok r' =>
+    simp only [hs, bind, Except.bind, pure, Except.pure, Except.ok.injEq] at h
+    subst h
+    refine ⟨fun hn => ?_, fun hn => ?_⟩
+    · obtain ⟨g, k1, k2⟩ := remoteSync_norecreate hn hs (Or.inr hg)
+      refine ⟨by simp [hn, flightAfterSync], g, k1, ?_⟩
+      rcases k2 with k | ⟨n, b, k⟩
+      · exact Or.inl (by simp [k])
+      · exact Or.inr ⟨n, b, by simp [k]⟩
+    · simp [hn, flightAfterSync]
+
+/-- the judge's declarative "this operation rebuilds" is the model's rebuild condition, in every reachable state
+    (`Inv` holds in all of them: `exec_inv`) -/
+theorem c09_rebuilds_spec {K : Kind} {cfg : Cfg} {st : State} {m : Mon} {c : Cache} {s : Schema} {op : Op} {i : Item}
+    (hi : Lemmas.RemoteLimiter.Inv K cfg st m) (hcache : st.cache = some c) (hsch : m.schema = some s)
+    (heff : effective m op = true) (hitem : syncItem m op = some i) (hT : itemType i = K) :
+    rebuilds m op = remoteRecreates (c.remote.getD {}) s i :=
+  rebuilds_eq hi hcache hsch heff hitem hT
+
+/-- **in-flight accounting.** In every reachable state (`Inv`; the monitor `m` has seen the same operations) in which
+    no type/strategy rebuild or stop happened while counted requests were in flight (`tainted = false`): the count of
+    the remote max-in-flight bucket IS the number of unfinished requests it admitted, and a new request is admitted
+    by it only if these, the new one included, are within the bound in force (`m.ob`: the schema's global limit, or
+    the largest global limit since the outage began) — across every resize, limit change, outage and recovery. -/
+theorem c09_inflight_admission {K : Kind} {cfg : Cfg} {st : State} {m : Mon} (hi : Lemmas.RemoteLimiter.Inv K cfg st m)
+    (ht : m.tainted = false) (c : Cache) (hc : st.cache = some c) :
+    c.fl.remCount = (st.handles.countP (flagOf c) : Int) ∧
+    ∀ id, st.handles.any (·.id == id) = false → load cfg st = .remote → isMI (observe cfg st).rlim = true →
+      (acquireStep st id).lastAdmit = some true → (st.handles.countP (flagOf c) : Int) + 1 ≤ m.ob.mi := by
+  refine ⟨(hi.fl.cur ht c hc).1, ?_⟩
+  intro id hnew hld hmi hadm
+  obtain ⟨st', h1, _, h3⟩ := step_acquire hi id
+  have hst : st' = acquireStep st id := by
+    simp only [step, Except.ok.injEq] at h1; exact h1.symm
+  subst hst
+  have hany : m.held.any (·.1 == id) = false := by rw [hi.fl.held, heldOf_any]; exact hnew
+  simp only [judgeTrans, judgeAcquire, observe_admitted, hadm, hany, hi.prev, observe_choice, hld, ht, hmi,
+    Bool.not_false, true_and] at h3
+  rw [hi.fl.held, hc, heldOf_countP] at h3
+  by_cases hle : (st.handles.countP (flagOf c) : Int) + 1 ≤ m.ob.mi
+  · exact hle
+  · simp [hle] at h3
+
+/-- **tokens ARE requested when there is demand and room** (any token-bucket count wrapper, any meter): with an event
+    pending and `reserve − tokens − tokenInflight > 0` — at least one batch, or the last answer older than
+    `batchAcquireMaxDuration` — the round asks for more than zero tokens -/
+theorem c09_tokens_requested_on_demand (w : TBW) (cnt : Counter) (mt : Meter) (infl now : Int)
+    (hev : cnt.event = true) (hroom : i32sub (i32sub w.reserve w.tokens) w.tokenInflight > 0) (hb : w.tokenBatch ≥ 1)
+    (hor : i32sub (i32sub w.reserve w.tokens) w.tokenInflight ≥ w.tokenBatch ∨
+      now - w.lastAcquireTime ≥ batchAcquireMaxDuration) :
+    ∃ hits, requestOf (.tbw w) cnt mt infl now = some hits ∧ hits > 0 :=
+  ⟨_, demand_hits hev hroom hb hor⟩
+
+/-- **every answered request gives its tokens back to the accounting, failed or not**: whatever the answer to a
+    request for `hits` tokens is — accept, refusal, any error — `tokenInflight` afterwards is what it was before the
+    request (`+hits` by `AddAcquiring`, `−hits` by `SetLimit`); so failed acquires cannot use up the room of
+    `c09_tokens_requested_on_demand` -/
+theorem c09_answer_returns_tokens (w w' : TBW) (loc : Schema) (mt : Meter) (a : TickAnswer) (hits now : Int) (b : Bool)
+    (h : ({ w with tokenInflight := i32add w.tokenInflight hits } : TBW).setLimit loc mt (tickReply a hits now) = .ok (w', b)) :
+    w'.tokenInflight = i32add (i32add w.tokenInflight hits) (toI32 (-hits)) := by
+  rw [tbw_setLimit_tokenInflight h]
+  simp [TBW.noteRequest, tickReply]
 
 /-! ## non-vacuity: the hypotheses are satisfiable by concrete, non-trivial runs; the judge is not trivially true -/
 
@@ -643,6 +764,52 @@ example : (run exCfg exOpsTick).1.map (fun o => (o.lim, o.unavail, o.tokens, o.r
 example : (judgeAll exCfg exOpsTick ((run exCfg exOpsTick).1.mapIdx fun i o =>
       if i = 6 then { o with req := none, unavail := true, lim := some (.tb 10 10), rlim := some (.tb 10 10) } else o))[6]?
     = some ["c09.no-request-when-due"] := by decide
+
+/-- requests in flight across a global-limit change: global 4, the server grants everything, four requests are
+    admitted and the fifth refused; the global limit becomes 3 (resized in place: the four stay counted): refused with
+    four and with three in flight, admitted again with two -/
+def exS4 : Schema := { strategy := .count, mi := some 2, gmi := some 4 }
+def exS3 : Schema := { strategy := .count, mi := some 2, gmi := some 3 }
+def exOpsFlight : List Op :=
+  [ .schema exS4, .sync false 1 (some 1) 0, .reconcileCount, .setLimit { accept := true, limit := 100, rt := 10 },
+    .acquire 1, .acquire 2, .acquire 3, .acquire 4, .acquire 5,
+    .schema exS3, .reconcileCount, .setLimit { accept := true, limit := 100, rt := 20 },
+    .acquire 6, .release 1, .acquire 7, .release 2, .acquire 8 ]
+
+example : (run exCfg exOpsFlight).1.map (fun o => (o.lim, o.admitted)) =
+    [ (some (.mi 2), none), (some (.mi 2), none), (some (.mi 1), none), (some (.mi 4), none),
+      (some (.mi 4), some true), (some (.mi 4), some true), (some (.mi 4), some true), (some (.mi 4), some true),
+      (some (.mi 4), some false), (some (.mi 4), some false), (some (.mi 1), some false), (some (.mi 3), some false),
+      (some (.mi 3), some false), (some (.mi 3), some false), (some (.mi 3), some false), (some (.mi 3), some false),
+      (some (.mi 3), some true) ] := by decide
+
+/-- the judge rejects an implementation that forgot the four requests when the limit changed (a rebuilt bucket admits
+    the fifth: 5 in flight > global 3) -/
+example : (judgeAll exCfg exOpsFlight ((run exCfg exOpsFlight).1.mapIdx fun i o =>
+      if i = 12 then { o with admitted := some true } else o))[12]? = some ["c09.inflight-exceeds-global"] := by decide
+
+/-- failed acquires, then the server is back and refuses more quota: every round with demand keeps asking for a token
+    (the failed requests' tokens were returned to the accounting) -/
+def exOpsLeak : List Op :=
+  [ .schema exTBCount, .sync false 1 (some 1) 0, .reconcileCount,
+    .event, .tick 1000000000 (some { err := .other }),
+    .event, .tick 2000000000 (some { err := .other }),
+    .event, .tick 3000000000 (some { accept := true, limit := 0 }),
+    .event, .tick 4000000000 (some { accept := true, limit := 0 }) ]
+
+example : (run exCfg exOpsLeak).1.map (fun o => (o.lim, o.unavail, o.wreserve, o.tokens, o.req)) =
+    [ (some (.tb 10 20), false, 0, 0, none), (some (.tb 10 20), false, 0, 0, none),
+      (some (.tb 100 200), false, 5, 0, none), (some (.tb 100 200), false, 5, 0, none),
+      (some (.tb 10 10), true, 5, 0, some 1), (some (.tb 10 10), true, 5, 0, some 1),
+      (some (.tb 10 10), true, 5, 0, some 1), (some (.tb 10 10), true, 5, 0, some 1),
+      (some (.tb 100 200), false, 5, 0, some 1), (some (.tb 100 200), false, 5, 0, some 1),
+      (some (.tb 100 200), false, 5, 0, some 1) ] := by decide
+
+/-- the judge rejects an instance that, with demand and room in the reserve, asks for zero tokens or sends nothing -/
+example : (judgeAll exCfg exOpsLeak ((run exCfg exOpsLeak).1.mapIdx fun i o =>
+      if i = 10 then { o with req := some 0 } else o))[10]? = some ["c09.no-tokens-requested-on-demand"] := by decide
+example : (judgeAll exCfg exOpsLeak ((run exCfg exOpsLeak).1.mapIdx fun i o =>
+      if i = 10 then { o with req := none } else o))[10]? = some ["c09.no-tokens-requested-on-demand"] := by decide
 
 /-- the heartbeat hypotheses of the hysteresis theorems are satisfiable (whatever the regenerated time-out is): up on a
     success, still up after exactly the time-out of consecutive failure, down one nanosecond later -/
